@@ -48,7 +48,7 @@ def enable(scope=None):
         return
 
     if os.path.exists(gitattributes):
-        with io.open(gitattributes, encoding="utf8") as f:
+        with io.open(gitattributes, encoding="utf8", errors="replace") as f:
             # (a commented-out line is not a rule)
             rules = [line for line in f.read().splitlines()
                      if not line.lstrip().startswith('#')]
